@@ -23,6 +23,7 @@ type Stream struct {
 	cursor                int64
 	filledBuffer          bool
 	allRead               bool
+	readErr               error // the first error other than io.EOF returned by the reader
 	UseNumber             bool
 	DisallowUnknownFields bool
 	Option                *Option
@@ -211,7 +212,7 @@ func (s *Stream) read() bool {
 		// that follow it
 		return false
 	}
-	if s.allRead {
+	if s.allRead || s.readErr != nil {
 		return false
 	}
 	buf := s.readBuf()
@@ -227,9 +228,17 @@ func (s *Stream) read() bool {
 	if err == io.EOF {
 		s.allRead = true
 	} else if err != nil {
+		// the input is not complete: whatever the scanners make of the bytes
+		// that did arrive, the caller must see this error
+		s.readErr = err
 		return false
 	}
 	return true
+}
+
+// ReadErr returns the error (other than io.EOF) with which the reader failed, if it did.
+func (s *Stream) ReadErr() error {
+	return s.readErr
 }
 
 func (s *Stream) skipWhiteSpace() byte {
